@@ -33,6 +33,12 @@ func (p *Path) unop(fr *frame, in *ssa.UnOp) Value {
 	}
 	switch in.Op {
 	case token.MUL: // load
+		if eo, isErr := x.(*ErrObj); isErr {
+			if eo == nil {
+				p.panicNow(p.site(in.Pos()), "nil pointer dereference (load of *errors.Error)", nil)
+			}
+			return eo // registered errors are handled by reference
+		}
 		ptr, ok := x.(*Value)
 		if !ok {
 			p.unsupported("load from %T", x)
